@@ -26,7 +26,7 @@ ASSUMPTIONS = [
     "negative n for head/tail and filter() with no condition are unspecified and excluded",
 ]
 BOUND = {
-    "quick": "size ladder: periodic frames of 17, 129, 1025 rows (thorough also 65537) for f8/str/i8/D keys x unique/drop_na/head/tail/slice/filter; rows 0..3; single-key alphabets 'quick' (<= 6 values) for f8,i8,u1,b1,str,U,D,us,obj; two-key frames over {NA,lo,hi}^2 with rows 0..3; all masks/indices/subsets/n/RNG answers",
+    "quick": "size ladder: periodic frames of 17, 129, 1025 rows for f8/str/i8/D keys and 65537 rows for int keys (thorough: 65537 for all four) x unique/drop_na/head/tail/slice/filter; rows 0..3; single-key alphabets 'quick' (<= 6 values) for f8,i8,u1,b1,str,U,D,us,obj; two-key frames over {NA,lo,hi}^2 with rows 0..3; all masks/indices/subsets/n/RNG answers",
     "thorough": "rows 0..4; single-key alphabets 'thorough' (<= 10 values); two-key frames rows 0..4; all masks/indices/subsets/n/RNG answers",
 }
 TIME_CAP = {"quick": 240, "thorough": 3000}
@@ -56,6 +56,10 @@ def shards(tier):
     for kind in ("f8", "str", "i8", "D"):
         for length in ([17, 129, 1025] if tier == "quick" else [17, 129, 1025, 65537]):
             out.append({"part": "long", "kind": kind, "length": length})
+    if tier == "quick":
+        na = len(V.alphabet("i8", "key"))
+        for j in range(na + na * na):  # one shard per pattern: these frames are expensive to read back cell by cell
+            out.append({"part": "long", "kind": "i8", "length": 65537, "maxperiod": 2, "only": j})
     return out
 
 
@@ -333,8 +337,12 @@ def run_shard(shard, rec):
     if shard["part"] == "long":
         kind, length = shard["kind"], shard["length"]
         alpha = V.alphabet(kind, "key")
-        for p in (1, 2, 3):
+        j = -1
+        for p in range(1, shard.get("maxperiod", 3) + 1):
             for pat in itertools.product(alpha, repeat=p):
+                j += 1
+                if shard.get("only") is not None and shard["only"] != j:
+                    continue
                 # the pattern fills the frame except the last row, which repeats the first key: a late first occurrence / duplicate
                 toks = [pat[i % p] for i in range(length)]
                 late = [alpha[-1]] * (length - 1) + [alpha[0 if alpha[0] is not None else 1]]
